@@ -218,6 +218,7 @@ class Executor:
         self.ctx = ctx
         self.ev = Evaluator(ctx)
         self.inline = self._index_inline_asserts()
+        self.splits = self._index_case_splits()
         global FEASIBLE_MS
         FEASIBLE_MS = int((ctx.contract.ghost.get('feasible_ms') if ctx.contract else None) or 300)
 
@@ -240,6 +241,45 @@ class Executor:
                                     f"{len(hits)} statements (contract out of date)")
             out.setdefault(id(hits[0]), []).extend(clauses)
         return out
+
+    # ---- case analysis on a local before a statement (contract ghost key `case_split`) -------
+    def _index_case_splits(self):
+        """ghost=dict(case_split={'<first line of a statement, or a prefix>': ('var', ['lit', ...])}):
+        case analysis on the value of the string-valued local `var` right BEFORE the selected
+        statement: one path per listed literal (on it the old value is assumed equal to the
+        literal and `var` is rebound to that literal constant) plus the path on which the value
+        differs from every listed literal.  Sound: the paths together cover every value; nothing
+        is assumed on all of them.  (Used for heterogeneous dicts accessed with a loop variable.)"""
+        cs = (self.ctx.contract.ghost or {}).get('case_split') if self.ctx.contract else None
+        if not cs:
+            return {}
+        stmts = [n for n in self.ctx._preorder(self.ctx.fn) if isinstance(n, ast.stmt) and n is not self.ctx.fn]
+        out = {}
+        for key, (var, lits) in cs.items():
+            hits = [n for n in stmts if ast.unparse(n).split('\n')[0].startswith(key.strip())]
+            if len(hits) != 1:
+                raise ContractError(f"{self.ctx.qualname}: case_split key {key!r} selects "
+                                    f"{len(hits)} statements (contract out of date)")
+            out[id(hits[0])] = (var, list(lits))
+        return out
+
+    def case_split_states(self, node, state):
+        var, lits = self.splits[id(node)]
+        if var not in state.env:
+            return [state]
+        cur = read_ref(state, state.env[var])
+        if cur.ty != T.NAME or (cur.meta and cur.meta[0] == 'const'):
+            return [state]
+        states = []
+        for lit in lits:
+            s = state.copy()
+            lv = literal(lit)
+            s.assume(cur.term == lv.term)
+            s.env[var] = s.new_cell(lv)
+            states.append(s)
+        state.assume(*[cur.term != literal(lit).term for lit in lits])
+        states.append(state)
+        return [s for s in states if feasible(s)]
 
     def apply_inline_asserts(self, node, outs):
         ctx = self.ctx
@@ -300,6 +340,10 @@ class Executor:
                     node, (ast.Assign, ast.AugAssign, ast.Expr, ast.Delete, ast.AnnAssign, ast.Assert)) \
                     and not self.mentions_tracked(node):
                 outs = self.abstract_stmt(node, state)
+            elif self.splits and id(node) in self.splits:
+                outs = []
+                for s_ in self.case_split_states(node, state):
+                    outs.extend(self.stmt_after_split(node, s_, m))
             else:
                 outs = m(node, state)
         except Unsupported as e:
@@ -324,6 +368,14 @@ class Executor:
         if self.inline and id(node) in self.inline:
             self.apply_inline_asserts(node, outs)
         return outs + extra
+
+    def stmt_after_split(self, node, state, m):
+        try:
+            return m(node, state)
+        except Unsupported as e:
+            if not self.ctx.lenient:
+                raise
+            return self.abstract_stmt(node, state, why=str(e))
 
     def mentions_tracked(self, node):
         tr = set(self.ctx.contract.tracked)
